@@ -44,7 +44,7 @@ def main():
             try:
                 verdicts = []
                 for c in checks:
-                    env = dict(os.environ, KVERIF_OUT=f"/tmp/kv_seeded_out", KVERIF_EVIDENCE=f"/tmp/kv_seeded_ev")
+                    env = dict(os.environ, KVERIF_OUT=f"/tmp/kv_seeded_out", KVERIF_EVIDENCE=f"/tmp/kv_seeded_ev", KVERIF_MAX_ROUNDS="1")
                     r = sh(f"cd {ROOT} && timeout 1500 /venv/bin/python -m kverif check {c} --tier quick", env=env)
                     first = next((l for l in r.stdout.splitlines() if l.strip().startswith("kind=")), "").strip()
                     verdicts.append(f"{c}: exit {r.returncode} {first}")
